@@ -64,7 +64,7 @@ func getSelectorName(typeX ast.SelectorExpr) string {
 }
 
 func getStarExprName(starExpr ast.StarExpr) string {
-	switch x := starExpr.X.(type) {
+	switch x := unparen(starExpr.X).(type) {
 	case *ast.Ident:
 		return x.Name
 	case *ast.SelectorExpr:
